@@ -144,6 +144,7 @@ def check(rep):
                 '{0,1,s-1,s,s+1,2s-1,2s,2s+1,3s,3F+1,random} (s = slice size) x {bytes, text utf-8/unset/latin-1/utf-16} x random '
                 'properties/routing keys; each case = one real Basic.publish on a channel of a connection tuned by the real '
                 '_send_tune_ok; distinct = (frame_max, body length, kind); non-trivial = body needs >= 2 frames or sits on a slice boundary')
+    rep.rule += "; plus: a quarter of the byte payloads are published through Message(...).publish (decoded views, foreign content_encoding), text with the codec chosen through the property setter after a read, and 40 / 600 scheduled runs with 2..5 concurrent writers judged by the reference broker's frame parser"
     rep.assumptions = [
         'int(math.ceil(len/float(max))) is translated as exact ceiling division (valid for len < 2^53)',
         'codecs other than utf-8 are opaque in the model (the encoded bytes are computed by Python); utf-8 is compared against Lean String.toUTF8',
